@@ -154,3 +154,19 @@ def term_fields(t):
 def is_upvar_field(t, idx, *fields):
     base, fs = term_fields(t)
     return base == ("upvar", idx) and fs == list(fields)
+
+
+def accepted_counter_cut(p, ga, T=None):
+    """get_assertion: is every Ok return behind (the stored counter is absent) or (update_credential's result was tested
+    and found Ok)?  Idiom independent: the tests are located through flow.success_edges.
+    -> (holds, update success edges, no-counter edges)"""
+    from . import flow, names
+    T = T or flow.Terms(p, ga)
+    is_update = lambda x: isinstance(x, tuple) and len(x) == 4 and x[0] == "await" and names.is_(x[1], "CredentialStore::update_credential")
+    is_counter = lambda x: isinstance(x, tuple) and len(x) == 3 and x[0] == "field" and x[2] == "counter"
+    upd_ok, _ = flow.success_edges(p, ga, is_update, T)
+    _, no_counter = flow.success_edges(p, ga, is_counter, T)
+    oks = [s["bb"] for s in flow.outcome_sites(ga) if s["kind"] == "Ok" and s["path"] == ()]
+    if not upd_ok or not oks:
+        return False, upd_ok, no_counter
+    return flow.cut_by_edges(ga, 0, oks, list(upd_ok) + list(no_counter)), upd_ok, no_counter
